@@ -108,7 +108,7 @@ def _prune(keep):
     except FileNotFoundError:
         return
     ents.sort(key=lambda e: os.path.getmtime(os.path.join(SCRATCH, e)), reverse=True)
-    for e in ents[2:]:
+    for e in ents[3:]:
         shutil.rmtree(os.path.join(SCRATCH, e), ignore_errors=True)
 
 
